@@ -14,6 +14,7 @@ Definition sh_of_write (w : write) : sh :=
   | WIns r => SW 0 (r_tbl r)
   | WUpd t _ _ => SW 1 t
   | WDel t _ => SW 2 t
+  | WTouch t _ => SW 1 t
   end.
 
 Definition sh_of (e : event) : sh :=
@@ -70,7 +71,8 @@ Definition store_eqb (a b : store) : bool :=
 Inductive tcase :=
 | CShape (pre : store) (o : op) (observed : list sh)                 (* real statement/commit sequence of one operation *)
 | CState (pre : store) (o : op) (snaps : list (nat * store))         (* (events before the cut, rows a fresh engine finds) *)
-| CWork (pre : store) (ops : list op) (acks : nat) (found : store)   (* killed workload: operations acknowledged, rows found after restart *)
+| CWork (pre : store) (ops : list op) (lo hi : nat) (found : store)  (* killed workload: operations of acknowledged requests, plus those of
+                                                                         the (batch) request in flight; rows found after restart *)
 | CClass (ot : Z) (tables : list Z).                                 (* SQLAlchemy mapper tables of the class storing ot *)
 
 Definition zs_eqb (a b : list Z) : bool :=
@@ -83,7 +85,7 @@ Definition check_tcase (c : tcase) : bool :=
       shape_eq (S (length observed + length m)) (norm false m) (norm false observed)
   | CState pre o snaps =>
       forallb (fun p => store_eqb (recover (crash_at (fst p) (trace_of o pre)) pre) (snd p)) snaps
-  | CWork pre ops acks found =>
-      store_eqb (posts (firstn acks ops) pre) found || store_eqb (posts (firstn (S acks) ops) pre) found
+  | CWork pre ops lo hi found =>
+      existsb (fun j => store_eqb (posts (firstn j ops) pre) found) (seq lo (S (hi - lo)))
   | CClass ot tables => zs_eqb (class_tables ot) tables
   end.
